@@ -149,6 +149,9 @@ int main(void)
         char id[256]; long tmo = 10000;
         line[strcspn(line, "\n")] = 0;
         if (sscanf(line, "case %255s %ld", id, &tmo) < 1) continue;
+        /* a change that makes an operation spin would otherwise cost the full budget on every case: after a few hangs
+           the property is violated anyway, the remaining cases only get a short budget */
+        static int nhang; if (nhang >= 6 && tmo > 1500) tmo = 1500;
         int nl = 0;
         while (fgets(line, sizeof line, stdin)) {
             line[strcspn(line, "\n")] = 0;
@@ -170,7 +173,7 @@ int main(void)
         while ((r = read(ep[0], err + el, sizeof err - 1 - el)) > 0) { el += r; if (el >= sizeof err - 1) { char sink[4096]; while (read(ep[0], sink, sizeof sink) > 0) {} break; } }
         err[el] = 0; close(ep[0]);
         int st = 0; waitpid(pid, &st, 0);
-        if (WIFSIGNALED(st) && WTERMSIG(st) == SIGALRM) printf("! Hang\n");
+        if (WIFSIGNALED(st) && WTERMSIG(st) == SIGALRM) { printf("! Hang\n"); nhang++; }
         else if (strstr(err, "runtime error:") && strstr(err, "null pointer")) printf("! MemErr UBSan: null pointer dereference\n");
         else if (strstr(err, "runtime error:")) { char *p = strstr(err, "runtime error:"); p[strcspn(p, "\n")] = 0; printf("! UB %s\n", p); }
         else if (strstr(err, "AddressSanitizer")) { char *p = strstr(err, "AddressSanitizer"); p[strcspn(p, "\n")] = 0; printf("! MemErr %.160s\n", p); }
